@@ -55,6 +55,9 @@ func c15Ops(base []histOp) []histOp {
 		histOp{Kind: "string", Name: "plain", Data: d},
 		histOp{Kind: "response", Name: "failing2", Data: d},
 		histOp{Kind: "evalstring", Src: "{{ {z: 1, a: [1, 2].reverse()} }}@dump(items)", Data: d},
+		// built-ins whose implementation could share state between calls (random source, buffers); results made order-independent
+		histOp{Kind: "evalstring", Src: "{{ items.shuffle().len() }} {{ [1, 2, 3, 4, 5].shuffle().contains(3) }} {{ items.contains(items.rand()) }} {{ [7, 8, 9].shuffle().shuffle().len() }}", Data: d},
+		histOp{Kind: "evalstring", Src: "{{ name.upper().lower().capitalize().reverse().repeat(3).truncate(5, '..') }} {{ 'a,b,c'.split(',').reverse().append('d').prepend('z').slice(1, 4) }} {{ 3.5.ceil() + 2.2.floor() + 7.abs() }} {{ 12.decimal() }} {{ '  x '.trim().len() }} {{ items.len() + name.first().len() }} {{ true.then('y', 'n') }}", Data: d},
 		histOp{Kind: "string", Name: "missing/one", Data: d}, histOp{Kind: "response", Name: "missing/two", Data: d}, histOp{Kind: "string", Name: "missing/three", Data: nil},
 		histOp{Kind: "response", Name: "missing/four", Data: nil}, histOp{Kind: "string", Name: "layouts/main", Data: d},
 	)
